@@ -130,6 +130,7 @@ def run_pelt_table(n, msl, pen, p, variant, slacks, slacks2=None):
     if det.penalty_ != pen:
         return None
     y = det.predict(X)
+    core.emit("PELT", y, n=n, p=p, msl=msl)
     cpts = [int(c) for c in y["ilocs"]]
     scores = np.asarray(det.scores, dtype=float)
     nq = sum(len(c) for c in cost.log[1:])  # first call = direct prefix costs
